@@ -138,6 +138,10 @@ func runC16(c *Ctx) {
 
 // c16Provision: the provision-time path (crl_urls), not part of the history model: direct oracle only.
 func c16Provision(c *Ctx) {
+	var items []string
+	defer func() {
+		c.WriteCoqSharded("cases_C16prov", histHeader(), "pcase", items, "prov_mismatches", 200)
+	}()
 	for _, storage := range []string{"memory", "disk"} {
 		for _, sig := range []string{"verify", "verify_log", "none", ""} { // "" = option omitted: means verify
 			for _, fetch := range []string{"fetch_actively", "fetch_background"} {
@@ -158,16 +162,35 @@ func c16Provision(c *Ctx) {
 						acceptable := (sig != "verify" && sig != "") || (x == "old" && trusted)
 						rep := map[string]interface{}{"storage": storage, "sig": sig, "fetch": fetch, "list": x, "trusted_signer_configured": trusted}
 						c.Count("provision-path")
+						verdict := ""
+						if err == nil {
+							verdict = w.Do(hs("p"))
+						}
 						if acceptable {
 							if err != nil {
 								c.Fail("", "provisioning a configured CRL that is acceptable under "+sig+" failed: "+err.Error(), rep)
-							} else if v := w.Do(hs("p")); v != "revoked" {
-								c.Fail("", "configured CRL not in force when provisioning returned: listed certificate "+v, rep)
+							} else if verdict != "revoked" {
+								c.Fail("", "configured CRL not in force when provisioning returned: listed certificate "+verdict, rep)
 							}
 						} else if err == nil {
-							if v := w.Do(hs("p")); v == "revoked" {
+							if verdict == "revoked" {
 								c.Fail("", "configured CRL in force under verify although it cannot be verified", rep)
 							}
+						}
+						// the same provisioning in the model
+						{
+							sg := sig
+							if sg == "" {
+								sg = "verify"
+							}
+							tr := "[]"
+							if trusted {
+								tr = "[1]"
+							}
+							serial := map[string]int64{"old": 101, "unknown": 501, "badsig": 500}[x]
+							items = append(items, fmt.Sprintf("mk_pc %d %s %s (Serve L_%s) {| c_issuer := 1; c_serial := %d; c_cdps := []; c_chain := [1; 9] |} %s %s",
+								len(items), coqCfg(HistCfg{Storage: storage, SigMode: sg, Fetch: fetch, Strict: false}), tr, x, serial, coqBool(err == nil),
+								map[string]string{"": "0", "accept": "1", "revoked": "2", "error": "3"}[verdict]))
 						}
 						// the CDP path under the same configuration: a strict handshake tells whether the list came into force
 						if !trusted && fetch == "fetch_actively" && x != "old" {
